@@ -335,9 +335,12 @@ fn inert_element_to_tokens(
                     Node::Element(node) => {
                         let self_closing = is_self_closing(node);
                         let el_name = node.name().to_string();
+                        // keep in sync with `ESCAPE_CHILDREN` in
+                        // tachys/src/html/element/elements.rs
                         let escape = el_name != "script"
                             && el_name != "style"
-                            && el_name != "textarea";
+                            && el_name != "textarea"
+                            && el_name != "noscript";
 
                         // opening tag
                         html.push('<');
@@ -592,7 +595,8 @@ fn node_to_tokens(
                 let el_name = el_node.name().to_string();
                 let escape = el_name != "script"
                     && el_name != "style"
-                    && el_name != "textarea";
+                    && el_name != "textarea"
+                    && el_name != "noscript";
                 inert_element_to_tokens(node, escape, global_class)
             } else {
                 element_to_tokens(
